@@ -1115,10 +1115,26 @@ fn run_c04(ctx: &mut Ctx, n_cases: u64) {
         b"\x1b[?25l\x1b[?2004h\x1b=\x1b[?1000;1006h\x1b[?47h\x1bc\x1b[?1h",
         b"a\xe4\xb8\x80\xcc\x81\x1b[2D\x1b[1P\xe4\xb8\x80\x1b[2@\x1b[X",
         b"\x1b[41m\x1b[K\x1b[?47h\x1b[42m\x1b[2;1H\x1b[K\x1b[?47l\x1b[m\x1b[?1049h\x1b[?1049l\x1b[?47h",
+        // the same report twice (titles, icon names, bells, an unknown sequence): every report is made, wherever the calls are cut
+        b"\x1b]2;sh\x07$ ls\r\n\x1b]0;sh\x07\x1b]1;sh\x07\x07\x07\x1b[5z\x1b[5z$ ",
     ] {
         // twice: one of the two copies starts from a scrolled-back view with history (see `prelude` below)
         cut_templates.push((sc.to_vec(), (1..sc.len()).collect()));
         cut_templates.push((sc.to_vec(), (1..sc.len()).collect()));
+    }
+    // a C1 control character as UTF-8 (C2 80..9F) where the automaton is NOT in its ground state — inside an OSC / DCS /
+    // APC string, right after ESC, inside a CSI, right after a truncated lead byte — cut between its two bytes and around
+    for intro in [&b"\x1b]2;a"[..], b"\x1bP1$ra", b"\x1b_a", b"\x1b", b"\x1b[3", b"\xf0", b"\xe4\xb8", b"\x1b]0;"] {
+        for x in [0x85u8, 0x9c, 0x80, 0x9f, 0x9b] {
+            for end in [&b"b\x07x"[..], b"b\x1b\\x", b"m"] {
+                let mut v = b"q".to_vec();
+                v.extend_from_slice(intro);
+                let c = v.len();
+                v.extend_from_slice(&[0xC2, x]);
+                v.extend_from_slice(end);
+                cut_templates.push((v, vec![c, c + 1, c + 2]));
+            }
+        }
     }
     // one very long call: a multi-byte character straddling a power-of-two offset of the buffer
     // (block-wise processing inside process() must not lose or split it)
